@@ -1,5 +1,5 @@
 """Check of property C06 (concurrent namespace operations are linearizable) - partial by nature."""
-from ..props import CHECKS
+from ..props import CHECKS, REPLAYERS
 from .. import conccheck
 
 KINDS = ("nonlin", "tempdup")
@@ -20,3 +20,4 @@ def replay_C06(ctx, obj):
 
 
 CHECKS["C06"] = check_C06
+REPLAYERS["C06"] = replay_C06
